@@ -22,7 +22,7 @@
 (* this machine reports equals Selectors!Matches on the induced tree (C04,  *)
 (* C05 at design level).                                                     *)
 (***************************************************************************)
-EXTENDS Naturals, Integers, Sequences, FiniteSets, TLC, Selectors
+EXTENDS Naturals, Integers, Sequences, FiniteSets, TLC, Json, Selectors
 
 CONSTANTS Docs,      \* set of documents (sequences of tags as in Selectors)
           SelSets    \* set of handler selector lists: sequence (match id = index) of selector lists
@@ -245,6 +245,8 @@ Refines == Done =>
      /\ i \in DOMAIN matched
      /\ matched[i] = {k \in 1..Len(sels) : Matches(doc, tr, i, sels[k], "kf-S2")}
      /\ (S2Free(sels) => matched[i] = {k \in 1..Len(sels) : Matches(doc, tr, i, sels[k], "css")})
+\* every (document, selector set) of the instance, printed once for replay in the real code (job c04)
+Emit == Done => PrintT(<<"REPLAY", ToJson([vdoc |-> doc, sels |-> sels])>>)
 \* the stack is the chain of open elements of the induced tree
 StackIsOpenChain ==
   (bail = <<>> /\ ~panic) =>
